@@ -29,6 +29,68 @@ pub struct Case {
     /// seed of the generated call order
     pub order: u64,
     pub tape: Tape,
+    /// adversarially routed histories for the interpreter in `crate::history` (8-byte op records):
+    /// altered messages, mismatching context / identities / password at finish, states pushed
+    /// through a codec between steps
+    #[serde(default)]
+    pub histories: Vec<Vec<[u8; 8]>>,
+}
+
+fn conv_spec() -> impl Strategy<Value = crate::history::ConvSpec> {
+    (
+        0u8..3,
+        prop_oneof![3 => Just(0u8), 1 => 0u8..3],
+        // 1 of 3 conversations is entirely honest, the others deviate at one step
+        prop_oneof![1 => Just(0u8), 2 => 1u8..=4],
+        0u8..6,
+        any::<u8>(),
+        any::<u8>(),
+        prop_oneof![2 => Just(0u8), 1 => 1u8..=3],
+        0u8..4,
+        0u8..3,
+    )
+        .prop_map(|(user, ctx, dev_step, dev_field, dev_val, m1, reser_step, reser_kind, codec)| crate::history::ConvSpec {
+            user,
+            ctx,
+            dev_step,
+            dev_field,
+            dev_val: dev_val & 0x7f,
+            m1,
+            reser_step,
+            reser_kind,
+            codec,
+        })
+}
+
+/// 1..5 interleaved conversations (each with at most one deviation) followed by free deliveries
+fn history() -> impl Strategy<Value = Vec<[u8; 8]>> {
+    (
+        prop::collection::vec(conv_spec(), 1..6),
+        prop::collection::vec(any::<u8>(), 24),
+        prop::collection::vec(history_op(), 0..8),
+    )
+        .prop_map(|(convs, inter, tail)| {
+            let mut ops = crate::history::compile(&convs, &inter);
+            ops.extend(tail);
+            ops
+        })
+}
+
+fn history_op() -> impl Strategy<Value = [u8; 8]> {
+    (
+        prop_oneof![2 => Just(0u8), 2 => Just(1u8), 4 => Just(2u8), 5 => Just(3u8), 4 => Just(4u8), 1 => Just(5u8)],
+        0u8..8,
+        0u8..8,
+        0u8..4,
+        // context: mostly the same one, so that the other parameters decide
+        prop_oneof![3 => Just(0u8), 1 => 0u8..3],
+        // identities (e / 8): mostly the default
+        prop_oneof![3 => 0u8..8, 1 => 0u8..32],
+        // 3 of 4 deliveries are unaltered
+        prop_oneof![3 => Just(0u8), 1 => 128u8..=255],
+        any::<u8>(),
+    )
+        .prop_map(|(code, a, b, c, d, e, m0, m1)| [code, a, b, c, d, e, m0, m1])
 }
 
 pub fn strategy(_s: &'static dyn Proto) -> BoxedStrategy<Case> {
@@ -47,8 +109,9 @@ pub fn strategy(_s: &'static dyn Proto) -> BoxedStrategy<Case> {
         any::<bool>(),
         any::<u64>(),
         gen::tape_plain(),
+        prop::collection::vec(history(), 6),
     )
-        .prop_map(|(pw_a, pw_b, pw_x, cred_base, ctx, explicit_server_id, explicit_client_id, share_rng, order, tape)| Case {
+        .prop_map(|(pw_a, pw_b, pw_x, cred_base, ctx, explicit_server_id, explicit_client_id, share_rng, order, tape, histories)| Case {
             pw_a,
             pw_b,
             pw_x,
@@ -59,6 +122,7 @@ pub fn strategy(_s: &'static dyn Proto) -> BoxedStrategy<Case> {
             share_rng,
             order,
             tape,
+            histories,
         })
         .boxed()
 }
@@ -260,6 +324,30 @@ pub fn check(s: &'static dyn Proto, c: &Case, st: &mut Stats, _k: &KnownFindings
     // explicit client identities carol's record no longer matches alice's sessions (2 + 2 + 1)
     let expected = if c.explicit_client_id { 5 } else { 7 };
     ensure_eq!(done.len(), expected, "number of completed conversations (model)");
+    // ---- second part: generated histories with altered messages and re-serialised states
+    let mut hs = crate::history::HistoryStats::default();
+    for (i, h) in c.histories.iter().enumerate() {
+        let mut data = vec![0u8, (c.order as u8).wrapping_add(i as u8)];
+        for o in h {
+            data.extend_from_slice(o);
+        }
+        match crate::history::run_history(s, &data, &mut hs) {
+            Ok(()) => {}
+            Err(e) if e.starts_with("C07 ") => return Err(Fail::new(format!("history #{i}: {e}"))),
+            // the interpreter also notices failures that are other properties' subject (an honest step or
+            // a matched conversation refused: C01; a state that does not survive a codec: C13; export
+            // key: C16); the history cannot continue, but that is not a C07 verdict
+            Err(e) => st.label(format!("history stopped early by a failure outside C07 ({})", &e[..3])),
+        }
+    }
+    st.eval(hs.client_finishes + hs.server_finishes);
+    nontrivial += hs.client_finishes + hs.server_finishes - hs.client_accepts - hs.server_accepts;
+    st.label_n("history:client finishes", hs.client_finishes);
+    st.label_n("history:client accepts (matched)", hs.client_accepts);
+    st.label_n("history:server finishes", hs.server_finishes);
+    st.label_n("history:server accepts (matched)", hs.server_accepts);
+    st.label_n("history:altered deliveries", hs.mutated_deliveries);
+    st.label_n("history:states pushed through a codec", hs.reserialisations);
     st.nontrivial_bulk(hash_of(&(m.name, c)), nontrivial);
     st.label(if c.share_rng { "rng:shared" } else { "rng:per-call" });
     st.sample(|| json!({"suite": m.name, "share_rng": c.share_rng, "client_start_order": order,
@@ -276,7 +364,7 @@ pub const BUDGET: Budget = Budget {
 pub fn run(cfg: &RunCfg) -> (Outcome, EvidenceExtra) {
     let out = run_property(cfg, "C07", crate::suites::suites20(), BUDGET, strategy, check);
     let ev = EvidenceExtra {
-        rule: "case = history on one server: registrations {A(pwA,credA), B(pwB,credB), C(pwA,credC), A'(re-registration of A), none} whose three credential identifiers share a generated prefix of 0..1000 bytes and differ in the last byte, client sessions {A, A again, B, A with a wrong password} started in a generated order, every (request, record, credential id) server session (4*5*3 = 60) started in a generated order; identities are either the defaults or one explicit client name per user (generated); all start calls draw either from one shared RNG or from a tape each (generated). Enumerated exhaustively per history: every response delivered to every client session (240 finishes on clones) and every resulting finalization delivered to every pending server session. Oracle = explicit model: client i accepts the response (request j, record, cred) iff j = i, the record exists, its password is the session's and cred is the record's; server session k completes only on the finalization produced from its own response; keys agree within a completed session; all completed sessions have pairwise distinct session keys; both directions asserted (exactly 7 conversations complete). evaluation = one delivery; non-trivial = deliveries that are not the in-order honest ones; distinct per (suite, case)".into(),
+        rule: "case = history on one server: registrations {A(pwA,credA), B(pwB,credB), C(pwA,credC), A'(re-registration of A), none} whose three credential identifiers share a generated prefix of 0..1000 bytes and differ in the last byte, client sessions {A, A again, B, A with a wrong password} started in a generated order, every (request, record, credential id) server session (4*5*3 = 60) started in a generated order; identities are either the defaults or one explicit client name per user (generated); all start calls draw either from one shared RNG or from a tape each (generated). Enumerated exhaustively per history: every response delivered to every client session (240 finishes on clones) and every resulting finalization delivered to every pending server session. Oracle = explicit model: client i accepts the response (request j, record, cred) iff j = i, the record exists, its password is the session's and cred is the record's; server session k completes only on the finalization produced from its own response; keys agree within a completed session; all completed sessions have pairwise distinct session keys; both directions asserted (exactly 7 conversations complete). Second part, 6 generated histories per case, each compiled from 1..5 interleaved intended conversations of three registered users with at most one deviation each (another operand at one step: password, record or none, credential id, context, identities, addressed session or message; or an altered message) and optional save/restore of a kept state, followed by 0..7 free operations (interpreter shared with the libFuzzer target `history`): register / client start / server start / client finish / server finish / push any kept state through native, bincode or JSON, where every delivery may be altered (one byte, one field taken from another message of its type, length change) and the finishing client may use another password, context or identities; oracle = acceptance by provenance (a client completes exactly on the bytes some server session produced for its own request under a record with its password, that record's credential id and agreeing context/identities; a server session exactly on the finalization made from its own response; equal keys within, distinct keys across sessions; export key of the registration). evaluation = one delivery; non-trivial = deliveries that are not the in-order honest ones; distinct per (suite, case)".into(),
         assumptions: vec!["routing is exhaustive for the bounded population; histories (orders, RNG sharing, inputs) are sampled".into()],
         exhaustive: Some(true),
         extra: [("exhaustive_part".to_string(), json!("all routings of the bounded population, per generated history"))].into_iter().collect(),
